@@ -165,6 +165,9 @@ def make_texts(case):
         st["eol"] = eol_doc
     if struct and srng.random() < 0.2 and not case.get("straddle"):
         struct[-1]["eol"] = ""
+    # in valuation 1 some secrets are RELATED through decoding (two type-7 strings hiding one password, clear text equal
+    # to a type-7 password); as strings they are as distinct as the unrelated values of valuation 2
+    xtwin = srng.random() < 0.3
     md5len = {}
     ctx_pad = [0]
     texts, vals = [], []
@@ -181,6 +184,10 @@ def make_texts(case):
                     sp = _special_text(st, form, vi, vr, {x["text"] for x in secrets.values() if x.get("text")})
                     if sp is not None:
                         secrets[sid] = sp
+                if sid not in secrets and vi == 0 and xtwin and not case.get("straddle"):
+                    tw = _decoding_twin(cls, secrets, vr)
+                    if tw is not None:
+                        secrets[sid] = tw
                 if st["special"] == "recur-user" and "{u}" in form["tpl"]:
                     ufill = {("u", form["tpl"].index("{u}")): _uword(st)}
                 if sid not in secrets:
@@ -189,7 +196,8 @@ def make_texts(case):
                         n = md5len.setdefault(sid, random.Random("%s-%s" % (case["sseed"], sid)).randint(1, 8))
                         secrets[sid] = S.md5_secret(vr, n)
                     else:
-                        secrets[sid] = S.gen_secret(vr, cls, plain_alpha=form["plain"], reserved_variants=True, dollar_text=not form["plain"])
+                        secrets[sid] = S.gen_secret(vr, cls, plain_alpha=form["plain"], reserved_variants=True, dollar_text=not form["plain"],
+                                                    plain_class=vr.choice([None, None, None, "numeric", "hex", "hex32", "hex64", "type7", "md5"]) if cls == "j9" else None)
                 sec = secrets[sid]
                 if cls == "j9":
                     # same salt character / filler structure in both valuations (the replacement must not
@@ -228,6 +236,25 @@ _ALNUM = "abcdefghijklmnopqrstuvwxyzABCDEFGHIJKLMNOPQRSTUVWXYZ0123456789"
 def _uword(st):
     r = random.Random(st["sp_seed"])
     return r.choice(S._NONHEX) + "".join(r.choice(_ALNUM) for _ in range(r.randint(5, 9))) + r.choice(S._NONHEX)
+
+
+def _decoding_twin(cls, secrets, vr):
+    used = {x.get("text") for x in secrets.values()}
+    t7 = [x for x in secrets.values() if x["cls"] == "type7" and x.get("plain")]
+    if cls == "type7" and t7:
+        base = vr.choice(t7)
+        for salt in vr.sample(range(16), 16):
+            t = decoders.type7_encode(base["plain"], salt)
+            if re.search(r"[A-F]", t) and t not in used:
+                return {"cls": "type7", "text": t, "cores": [t, t[2:]], "plain": base["plain"], "sub": "same-password-other-offset"}
+    if cls == "text" and t7:
+        res = load.nc().rw.default_reserved_words
+        for base in t7:
+            p = base["plain"]
+            if re.fullmatch(r"[A-Za-z0-9]*[g-zG-Z][A-Za-z0-9]*", p) and p not in used and p not in res and p.lower() not in res \
+                    and not re.search(r"(?i)password|secret|key|community", p):
+                return {"cls": "text", "text": p, "cores": [], "sub": "equals-type7-password"}
+    return None
 
 
 def _special_text(st, form, vi, vr, used):
